@@ -70,7 +70,7 @@ def has_stmt(block, pred):
 
 
 def pinned(prop):
-    d = os.path.join(verif.REPLAYS, "pinned")
+    d = verif.PINNED
     out = []
     if os.path.isdir(d):
         for f in sorted(os.listdir(d)):
